@@ -381,7 +381,7 @@ func constructorScript(r *idRow, envSrc string, report func(Fail), harness func(
 			ctor = "FunctionType(parameters: [" + strings.Join(ps, ", ") + "], return: " + typeExpr(t.R) + ")"
 		case "nom":
 			switch t.name() {
-			case "S", "S2", "R", "R2", "En", "N", "At", "As":
+			case "S", "S2", "S3", "R", "R2", "R3", "En", "N", "At", "As":
 				ctor = fmt.Sprintf("CompositeType(%q)", r.IDs[i])
 			default:
 				continue
